@@ -4508,6 +4508,10 @@ class PyCdlib:
                 abs_offset = abs_extent_loc * self.logical_block_size + offset
             elif isinstance(record, udfmod.UDFFileEntry):
                 abs_offset = record.extent_location() * self.logical_block_size
+            elif isinstance(record, eltorito.EltoritoEntry):
+                # An El Torito entry only holds the load address and load size
+                # of the boot file, neither of which changes here.
+                continue
             else:
                 # This should never happen
                 raise pycdlibexception.PyCdlibInternalError('Invalid record type')
